@@ -115,7 +115,9 @@ func embedCarrier(c Case, g *docGen, url, tid, decoy, marker string) string {
 	size := ` width="560" height="315"`
 	switch c.str("carrier", "iframe") {
 	case "iframe":
-		return `<iframe title="` + marker + `"` + size + ` src="` + u + `" frameborder="0" allowfullscreen></iframe>`
+		// lazy-loading attributes name other addresses; the frame a browser loads is the one in src
+		lazy := g.pick("", "", ` data-src="https://www.youtube.com/embed/zqlazy9"`, ` data-lazy-src="https://player.vimeo.com/video/424242"`)
+		return `<iframe title="` + marker + `"` + size + lazy + ` src="` + u + `" frameborder="0" allowfullscreen></iframe>`
 	case "iframeTid":
 		// rendered tweets carry the class of the blockquote they replace; the class alone allows nothing
 		cls := g.pick("", "", ` class="twitter-tweet twitter-tweet-rendered"`, ` class="twitter-tweet"`)
